@@ -180,6 +180,17 @@ Theorem C20_history_name : forall c l st,
   c_name (fold_left (mig_step c) l st) = own_name c.
 Proof. exact migrate_history_name. Qed.
 
+(* a migration is applied once *)
+Theorem C20_migrate_once_then_fixed : forall c now msg st st' p l,
+  kind_of c <> KFactory -> migrate c now msg st = Ok (st', p) ->
+  fold_left (mig_step c) l st' = st'.
+Proof. exact migrate_once_then_fixed. Qed.
+
+Theorem C20_at_code_version_nothing_changes : forall c l st,
+  c_name st = own_name c -> parse_version (c_version st) = Some (3, 16, 0) ->
+  fold_left (mig_step c) l st = st.
+Proof. exact mig_fold_at_code. Qed.
+
 Example C20_ex_history_vending :
   let st := mkState "crates.io:sg-minter" "3.8.9" (mkSlots None None None None None None None (Some 5)) in
   let st' := fold_left (mig_step VendingMinter) [(100000000000000, None); (7, None); (200000000000000, None)] st in
@@ -422,3 +433,5 @@ Print Assumptions C20_history_never_downgrades.
 Print Assumptions C20_history_unparsable_stuck.
 Print Assumptions C20_history_name.
 Print Assumptions C20_ex_history_vending.
+Print Assumptions C20_migrate_once_then_fixed.
+Print Assumptions C20_at_code_version_nothing_changes.
